@@ -853,6 +853,21 @@ def run(ctx, rep):
     # __delattr__, __getattribute__) would take a third kind of operation away from the connection's configuration
     hook_names = {"_rpyc_getattr", "_rpyc_setattr", "_rpyc_delattr", "__getattr__", "__setattr__", "__delattr__", "__getattribute__"}
     defined = set(methods) | {t.id for st in view.body if isinstance(st, ast.Assign) for t in st.targets if isinstance(t, ast.Name)}
+    # the view is its own gate for local users too (and for a view wrapped in another view, whose hook applies plain
+    # getattr/setattr to it): the language-level hooks are the same functions as the protocol-level ones
+    aliases = {t.id: st.value.id for st in view.body if isinstance(st, ast.Assign) and isinstance(st.value, ast.Name)
+               for t in st.targets if isinstance(t, ast.Name)}
+    missing_local = []
+    for dunder, hook in (("__getattr__", "_rpyc_getattr"), ("__setattr__", "_rpyc_setattr")):
+        same = aliases.get(dunder) == hook or aliases.get(hook) == dunder or (
+            dunder in methods and hook in methods and [A.norm(x) for x in methods[dunder].body] == [A.norm(x) for x in methods[hook].body])
+        if not same:
+            missing_local.append(dunder)
+    rep.ob("R06.6", "restricted: plain attribute access on the view goes through the same two lists as the peer's access", not missing_local,
+           "__getattr__ is _rpyc_getattr, __setattr__ is _rpyc_setattr" if not missing_local else
+           "the view does not route %s through its hook: a write (or read) applied to the view itself - by local code or by an outer "
+           "restricted view wrapped around it - bypasses the lists (a write lands in the view's own __dict__ and shadows the real "
+           "attribute)" % missing_local, ctx.loc(view), kind="site")
     extra_hooks = sorted((defined & hook_names) - {"_rpyc_getattr", "_rpyc_setattr", "__getattr__", "__setattr__"})
     rep.ob("R06.6", "restricted: the view takes over reading and writing only (deleting stays with the connection's configuration)",
            not extra_hooks, "hooks: _rpyc_getattr/__getattr__, _rpyc_setattr/__setattr__" if not extra_hooks else
@@ -969,6 +984,11 @@ def run(ctx, rep):
            "a mutable configuration value is changed in place (%s) at %s: the set object is shared by all connections through "
            "DEFAULT_CONFIG.copy()" % (shared[0][1], ", ".join(ctx.loc(n) for n, _ in shared)),
            ctx.loc(shared[0][0]) if shared else "rpyc/core/protocol.py", kind="site")
+    # the configuration a SERVER hands to its connections is the server's own: not a default-argument object shared by every
+    # server created without one (relaxing one server's protocol_config in place would relax them all)
+    from . import hygiene as H_
+    for srv_cls in ("rpyc.utils.server.Server", "rpyc.utils.server.ThreadPoolServer"):
+        H_.private_state(ctx, rep, "R06.7", srv_cls)
     allowed_writers = {K.CONN + ".__init__", "rpyc.core.service.SlaveService.on_connect"}
     badw = [(n, how, fq, d) for n, how, fq, d in cfgw if fq is None or fq.qual not in allowed_writers]
     rep.floor("R06.7", "writers of a connection's _config in the package", len(cfgw), 1)
